@@ -2,11 +2,16 @@ package work
 
 import (
 	"fmt"
+	"math/rand"
 	"reflect"
+	"strings"
+	"time"
 
 	hessian "github.com/vogo/gohessian"
 
 	"verif/hspec"
+	"verif/mon"
+	"verif/zoo"
 )
 
 // rtOut is the outcome of one one-shot round trip through the public API.
@@ -73,3 +78,111 @@ func subRange(c Case) (int, int) {
 }
 
 func hspecHx(s string) []byte { return hspec.Hx(s) }
+
+// bulkValues: values whose multi-octet scalars cross every alignment of the 4096-byte
+// buffer that the one-shot decode entry points put in front of the input, and long lists
+// of such scalars (a decoder that issues a bare Read instead of ReadFull only fails there).
+func bulkValues(seed int64, which string) []interface{} {
+	r := rand.New(rand.NewSource(seed))
+	var out []interface{}
+	for pad := 4070; pad <= 4100; pad++ {
+		out = append(out, &zoo.PadThen{Pad: strings.Repeat("p", pad), L: int64(r.Uint64()) | 1<<50, D: r.NormFloat64() * 1e-3, T: time.Unix(r.Int63n(1<<31), (1+r.Int63n(998))*1e6), I: int32(r.Uint32()) | 1<<28, F: float32(r.NormFloat64()), Tail: "tail"})
+	}
+	switch which {
+	case "int":
+		l := make([]int64, 1200)
+		i := make([]int32, 1500)
+		for k := range l {
+			l[k] = int64(r.Uint64()) | 1<<40
+		}
+		for k := range i {
+			i[k] = int32(r.Uint32()) | 1<<27
+		}
+		out = append(out, &zoo.SlInt64{V: l}, &zoo.SlInt32{V: i}, l, i)
+	case "double":
+		d := make([]float64, 1200)
+		f := make([]float32, 1500)
+		for k := range d {
+			d[k] = r.NormFloat64() * 1e-5
+			if k%3 == 0 {
+				d[k] = float64(r.Intn(60000) - 30000)
+			}
+		}
+		for k := range f {
+			f[k] = float32(r.NormFloat64())
+		}
+		out = append(out, &zoo.SlF64{V: d}, &zoo.SlF32{V: f}, d)
+	case "time":
+		t := make([]time.Time, 1200)
+		for k := range t {
+			t[k] = time.Unix(r.Int63n(1<<33)-1<<32, (1+r.Int63n(998))*1e6)
+		}
+		out = append(out, &zoo.SlTime{V: t}, &zoo.MpStrTime{M: map[string]time.Time{"a": t[0], "b": t[1]}})
+	case "string":
+		s := make([]string, 600)
+		for k := range s {
+			s[k] = strings.Repeat("世", 1+r.Intn(12)) + "x"
+		}
+		b := make([][]byte, 400)
+		for k := range b {
+			b[k] = make([]byte, 1+r.Intn(30))
+			r.Read(b[k])
+		}
+		out = append(out, &zoo.SlStr{V: s}, &zoo.SlBin{V: b})
+	}
+	return out
+}
+
+// bulkCheck round-trips the bulk values (one-shot entry points, and a streaming decoder fed
+// a few bytes per Read) and reports any difference.
+func bulkCheck(env *Env, res *Result, c Case, which string) {
+	vals := bulkValues(c.Seed, which)
+	lo, hi := 0, len(vals)
+	if c.Sub >= 0 {
+		lo, hi = c.Sub, c.Sub+1
+	}
+	for j := lo; j < hi && j < len(vals); j++ {
+		v := vals[j]
+		res.Evals++
+		res.NT = append(res.NT, Hash64(fmt.Sprintf("bulk|%s|%d|%d", which, c.Seed, j)))
+		cc := c
+		cc.Sub = j
+		feats := []string{"bulk", "crosses-4096-byte-buffer"}
+		o := roundTrip(v)
+		viol := func(class, detail string) {
+			env.Viol(res, Violation{Class: class, Features: feats, Detail: fmt.Sprintf("%T (%d wire bytes): %s", v, len(o.Wire), detail), Case: cc})
+		}
+		switch {
+		case o.Panic != nil:
+			viol(o.Panic.Class, o.Stage+" panic "+o.Panic.Msg)
+			continue
+		case o.EncErr != nil:
+			viol("enc-error", o.EncErr.Error())
+			continue
+		case o.DecErr != nil:
+			viol("dec-error", o.DecErr.Error())
+			continue
+		}
+		if d := zoo.Equiv(v, o.Dec, zoo.EquivOpts{}); d != "" {
+			viol("mismatch:bulk", d)
+			continue
+		}
+		// the same bytes through a streaming decoder whose reader delivers 7 bytes per Read
+		rd := mon.NewReader(o.Wire)
+		rd.Chunk = 7
+		var out interface{}
+		var err error
+		pi, _ := Guard(func() { out, err = hessian.NewDecoder(rd, o.TypMap).ReadObject() })
+		switch {
+		case pi != nil:
+			viol(pi.Class, "short-read stream: panic "+pi.Msg)
+		case err != nil:
+			viol("dec-error", "short-read stream: "+err.Error())
+		default:
+			if d := zoo.Equiv(v, out, zoo.EquivOpts{}); d != "" {
+				viol("mismatch:bulk", "short-read stream: "+d)
+			}
+		}
+		res.Count("bulk_values_crossing_buffer_boundaries", 1)
+	}
+}
